@@ -53,9 +53,14 @@ class Importance(CellModifierInput):
                     raise MalformedInputError(
                         input, f"Importances must be ≥ 0 value: {node} given"
                     )
-            for particle in self.particle_classifiers:
+            for i, particle in enumerate(self.particle_classifiers):
                 self._particle_importances[particle] = copy.deepcopy(self._tree)
                 self._real_tree[particle] = copy.deepcopy(self._tree)
+                if i > 0:
+                    # if the particles of this input are ever written as inputs of their own,
+                    # its comments go with the first particle only
+                    self._strip_comments(self._particle_importances[particle])
+                    self._strip_comments(self._real_tree[particle])
 
     def _grab_beginning_comment(self, padding):
         super()._grab_beginning_comment(padding)
@@ -228,6 +233,8 @@ class Importance(CellModifierInput):
         elif isinstance(node, syntax_node.ListNode):
             for child in node.nodes:
                 Importance._strip_comments(child)
+            if isinstance(node, syntax_node.ShortcutNode) and node.end_padding is not None:
+                Importance._strip_comments(node.end_padding)
 
     def __delitem__(self, particle):
         if not isinstance(particle, Particle):
